@@ -41,3 +41,260 @@ Proof.
     unfold lsum. rewrite !map_const_sum. exact Hlen. }
   rewrite Hd in *. apply (sorted_isort_id cmp). apply (sorted_respects cmp L l (isort cmp l) HF). apply (isort_sorted cmp L).
 Qed.
+
+Lemma corder_false_id : forall e, snd (corder e) = false -> fst (corder e) = e.
+Proof.
+  assert (Hn : forall o l, Forall (fun e => snd (corder e) = false -> fst (corder e) = e) l ->
+                           snd (corder (mkb o l)) = false -> fst (corder (mkb o l)) = mkb o l).
+  { intros o l IH Hf. rewrite corder_unfold in *. cbn [fst snd] in *. apply orb_false_iff in Hf. destruct Hf as [Hc Hnode].
+    assert (El : map fst (map corder l) = l).
+    { rewrite map_map. apply map_id_on. clear Hnode. induction IH as [|c l Hcx _ IHl]; [constructor|].
+      simpl in Hc. apply orb_false_iff in Hc. destruct Hc as [H1 H2]. constructor; [apply Hcx; exact H1 | apply IHl; exact H2]. }
+    rewrite El in *. unfold corder_node in *. cbn [fst snd] in *. apply negb_false_iff in Hnode. apply is_eq_true in Hnode.
+    apply lex_eq_Forall2 in Hnode. rewrite (sortdedupe_eq_id ccmp ccmp_lawful l Hnode). reflexivity. }
+  induction e using cexpr_ind'; intro Hf; [reflexivity | apply (Hn BAnd l H Hf) | apply (Hn BOr l H Hf)].
+Qed.
+
+Lemma csimplify_false_id : forall e, snd (csimplify e) = false -> fst (csimplify e) = e.
+Proof.
+  intros e Hf. unfold csimplify in *.
+  destruct (cflatten_shrinks e) as [_ [_ F3]]. destruct (cflatten e) as [e1 c1]. cbn [fst snd] in *.
+  pose proof (corder_false_id e1) as O3. destruct (corder e1) as [e2 c2]. cbn [fst snd] in *.
+  destruct (cabsorb_shrinks e2) as [_ [_ A3]]. destruct (cabsorb e2) as [e3 c3]. cbn [fst snd] in *.
+  apply orb_false_iff in Hf. destruct Hf as [Hf H3]. apply orb_false_iff in Hf. destruct Hf as [H1 H2].
+  rewrite (A3 H3), (O3 H2), (F3 H1). reflexivity.
+Qed.
+
+(* ------------------------------------------------------------------ *)
+(* normal forms of a settle loop, independent of fuel and flag         *)
+
+Section SettleRounds.
+  Context {A : Type} (g : A -> A * bool).
+  Hypothesis g_false_id : forall a, snd (g a) = false -> fst (g a) = a.
+
+  Definition snf (a y : A) : Prop := exists fuel ch0 ch, settle_loop fuel (fun x => Ok (g x)) a ch0 = Ok (y, ch).
+
+  Lemma settle_loop_flag : forall fuel a ch1 ch2 y c,
+      settle_loop fuel (fun x => Ok (g x)) a ch1 = Ok (y, c) -> exists c', settle_loop fuel (fun x => Ok (g x)) a ch2 = Ok (y, c').
+  Proof.
+    induction fuel as [|n IH]; intros a ch1 ch2 y c E; [discriminate|].
+    rewrite settle_loop_S in *. destruct (g a) as [a1 c1]. destruct c1; [apply (IH a1 true true y c E)|].
+    inversion E; subst. eexists; reflexivity.
+  Qed.
+
+  Lemma snf_det : forall a y y', snf a y -> snf a y' -> y = y'.
+  Proof.
+    intros a y y' [f1 [c1 [d1 E1]]] [f2 [c2 [d2 E2]]].
+    destruct (settle_loop_flag f2 a c2 c1 y' d2 E2) as [d2' E2'].
+    pose proof (settle_loop_more _ f1 a c1 _ f2 E1) as M1. pose proof (settle_loop_more _ f2 a c1 _ f1 E2') as M2.
+    rewrite Nat.add_comm in M2. rewrite M1 in M2. inversion M2. reflexivity.
+  Qed.
+
+  (* entering the loop one round later *)
+  Lemma snf_round : forall a y, snf a y <-> snf (fst (g a)) y.
+  Proof.
+    intros a y. split.
+    - intros [fuel [c0 [c E]]]. destruct fuel as [|n]; [discriminate|]. rewrite settle_loop_S in E.
+      destruct (g a) as [a1 c1] eqn:Eg. cbn [fst]. destruct c1.
+      + exists n, true, c. exact E.
+      + inversion E; subst. pose proof (g_false_id a) as Hid. rewrite Eg in Hid. cbn [fst snd] in Hid.
+        pose proof (Hid eq_refl) as Hya. subst y.
+        exists 1, false, false. rewrite settle_loop_S, Eg. reflexivity.
+    - intros [fuel [c0 [c E]]]. destruct (g a) as [a1 c1] eqn:Eg. cbn [fst] in E. destruct c1.
+      + exists (S fuel), false. destruct (settle_loop_flag fuel a1 c0 true y c E) as [c' E'].
+        exists c'. rewrite settle_loop_S, Eg. exact E'.
+      + pose proof (g_false_id a) as Hid. rewrite Eg in Hid. cbn [fst snd] in Hid. rewrite (Hid eq_refl) in E.
+        exists fuel, c0, c. exact E.
+  Qed.
+End SettleRounds.
+
+Definition cnf := snf csimplify.
+
+Lemma cnf_of_csettle : forall fuel e y ch, csettle fuel e = Ok (y, ch) -> cnf e y.
+Proof. intros fuel e y ch E. exists fuel, false, ch. exact E. Qed.
+
+Lemma cnf_cong : forall a b y, ceqc a b -> cnf a y -> forall y', cnf b y' -> ceqc y y'.
+Proof.
+  intros a b y Hab [f1 [c1 [d1 E1]]] y' Hb.
+  pose proof (settle_loop_cong ceqc csimplify csimplify_cong f1 a b c1 Hab) as Hr. rewrite E1 in Hr.
+  destruct (settle_loop f1 (fun x => Ok (csimplify x)) b c1) as [[y2 d2]|x] eqn:E2; simpl in Hr; [|contradiction].
+  destruct Hr as [Hy _]. assert (Hb2 : cnf b y2) by (exists f1, c1, d2; exact E2).
+  rewrite (snf_det csimplify b y' y2 Hb Hb2). exact Hy.
+Qed.
+
+(* if one round (or two) brings the two sides to comparator-equal expressions, the settle loops end comparator-equal *)
+Lemma csettle_by_round : forall X X' f1 f2 y y' c c',
+    ceqc (fst (csimplify X)) (fst (csimplify X')) ->
+    csettle f1 X = Ok (y, c) -> csettle f2 X' = Ok (y', c') -> ceqc y y'.
+Proof.
+  intros X X' f1 f2 y y' c c' Hr E1 E2.
+  apply (cnf_cong (fst (csimplify X)) (fst (csimplify X')) y Hr).
+  - apply (proj1 (snf_round csimplify csimplify_false_id X y)). apply (cnf_of_csettle _ _ _ _ E1).
+  - apply (proj1 (snf_round csimplify csimplify_false_id X' y')). apply (cnf_of_csettle _ _ _ _ E2).
+Qed.
+
+Lemma csettle_by_rounds2 : forall X X' f1 f2 y y' c c',
+    ceqc (fst (csimplify (fst (csimplify X)))) (fst (csimplify (fst (csimplify X')))) ->
+    csettle f1 X = Ok (y, c) -> csettle f2 X' = Ok (y', c') -> ceqc y y'.
+Proof.
+  intros X X' f1 f2 y y' c c' Hr E1 E2.
+  apply (cnf_cong _ _ y Hr).
+  - apply (proj1 (snf_round csimplify csimplify_false_id _ y)). apply (proj1 (snf_round csimplify csimplify_false_id X y)). apply (cnf_of_csettle _ _ _ _ E1).
+  - apply (proj1 (snf_round csimplify csimplify_false_id _ y')). apply (proj1 (snf_round csimplify csimplify_false_id X' y')). apply (cnf_of_csettle _ _ _ _ E2).
+Qed.
+
+(* and then the rest of the pipeline *)
+Lemma ccore_after_settle : forall fuel X X' n n' c c',
+    (forall y y' d d', csettle fuel X = Ok (y, d) -> csettle fuel X' = Ok (y', d') -> ceqc y y') ->
+    ccore fuel X = Ok (n, c) -> ccore fuel X' = Ok (n', c') -> ceqc n n'.
+Proof.
+  intros fuel X X' n n' c c' Hs E1 E2. unfold ccore in *.
+  apply bind_ok in E1. destruct E1 as [[y d] [S1 E1]]. apply bind_ok in E2. destruct E2 as [[y' d'] [S2 E2]].
+  pose proof (Hs y y' d d' S1 S2) as Hy.
+  apply bind_ok in E1. destruct E1 as [[z dz] [D1 E1]]. apply bind_ok in E2. destruct E2 as [[z' dz'] [D2 E2]].
+  pose proof (cdnf_cong fuel y y' Hy) as Hd. rewrite D1, D2 in Hd. destruct Hd as [Hz _].
+  apply bind_ok in E1. destruct E1 as [[w dw] [T1 E1]]. apply bind_ok in E2. destruct E2 as [[w' dw'] [T2 E2]].
+  pose proof (csettle_cong fuel z z' Hz) as Ht. rewrite T1, T2 in Ht. destruct Ht as [Hw _].
+  inversion E1; inversion E2; subst. exact Hw.
+Qed.
+
+(* ------------------------------------------------------------------ *)
+(* what one round does to a node                                       *)
+
+Definition gfl (o : bop) (x : cexpr) : list cexpr := match ops_of o x with Some xs => xs | None => [x] end.
+Definition fc (l : list cexpr) : list cexpr := map (fun e => fst (cflatten e)) l.
+Definition oc (l : list cexpr) : list cexpr := map (fun e => fst (corder e)) l.
+
+Lemma cflatten_ops_flat : forall o l, fst (cflatten_ops o l) = flat_map (gfl o) l.
+Proof.
+  induction l as [|x l IH]; [reflexivity|]. cbn [cflatten_ops]. destruct (cflatten_ops o l) as [r ch]. cbn [fst] in IH.
+  simpl. unfold gfl at 1. destruct (ops_of o x); cbn [fst]; rewrite IH; reflexivity.
+Qed.
+
+Definition collapse (o : bop) (k : list cexpr) : cexpr := match k with [x] => x | k' => mkb o (flat_map (gfl o) k') end.
+
+Lemma collapse_big : forall o k, List.length k <> 1 -> collapse o k = mkb o (flat_map (gfl o) k).
+Proof. intros o [|a [|b r]] Hk; try reflexivity. contradiction Hk; reflexivity. Qed.
+
+Lemma cflatten_mkb : forall o l, fst (cflatten (mkb o l)) = collapse o (fc l).
+Proof.
+  intros o l. rewrite cflatten_unfold. cbn [fst]. unfold collapse, fc. rewrite map_map. unfold cflatten_node.
+  destruct (map (fun x => fst (cflatten x)) l) as [|x [|x' r]] eqn:El.
+  - reflexivity.
+  - reflexivity.
+  - rewrite <- cflatten_ops_flat. destruct (cflatten_ops o (x :: x' :: r)); reflexivity.
+Qed.
+
+Lemma corder_mkb : forall o m, fst (corder (mkb o m)) = mkb o (dedupe ccmp (isort ccmp (oc m))).
+Proof. intros o m. rewrite corder_unfold. cbn [fst]. unfold corder_node, oc. cbn [fst]. rewrite map_map. reflexivity. Qed.
+
+Lemma csimplify_fst : forall e, fst (csimplify e) = fst (cabsorb (fst (corder (fst (cflatten e))))).
+Proof.
+  intro e. unfold csimplify. destruct (cflatten e) as [e1 c1]. cbn [fst]. destruct (corder e1) as [e2 c2]. cbn [fst].
+  destruct (cabsorb e2) as [e3 c3]. reflexivity.
+Qed.
+
+Lemma incl_flat_map : forall {A B} (f : A -> list B) l l', incl l l' -> incl (flat_map f l) (flat_map f l').
+Proof.
+  intros A B f l l' Hi y Hy. apply in_flat_map in Hy. destruct Hy as [x [Hx Hy]]. apply in_flat_map. exists x. split; [apply Hi; exact Hx | exact Hy].
+Qed.
+
+(* same SET of operands (any order, any multiplicity), not a single operand: one round makes them comparator-equal *)
+Lemma round_seteq : forall o l l', incl l l' -> incl l' l -> List.length l <> 1 -> List.length l' <> 1 ->
+                                   ceqc (fst (csimplify (mkb o l))) (fst (csimplify (mkb o l'))).
+Proof.
+  intros o l l' H1 H2 N1 N2. rewrite !csimplify_fst.
+  assert (Ef : forall k, List.length k <> 1 -> fst (cflatten (mkb o k)) = mkb o (flat_map (gfl o) (fc k))).
+  { intros k Nk. rewrite cflatten_mkb. apply collapse_big. unfold fc. rewrite map_length. exact Nk. }
+  rewrite (Ef l N1), (Ef l' N2), !corder_mkb.
+  refine (proj1 (cabsorb_cong _ _ _)). apply ceqc_mkb.
+  apply (sortdedupe_set ccmp ccmp_lawful); apply (covers_incl ccmp ccmp_lawful); unfold oc, fc;
+    apply incl_map; apply incl_flat_map; apply incl_map; assumption.
+Qed.
+
+(* A op (B op C) and (A op B) op C: flatten alone makes them identical *)
+Lemma flat_map_gfl_single : forall o x, flat_map (gfl o) [x] = gfl o x.
+Proof. intros. simpl. apply app_nil_r. Qed.
+
+Lemma gfl_mkb : forall o m, gfl o (mkb o m) = m.
+Proof. intros o m. unfold gfl. destruct o; reflexivity. Qed.
+
+Lemma cflatten_assoc : forall o l1 l2 l3, l2 <> [] ->
+    fst (cflatten (mkb o (l1 ++ mkb o l2 :: l3))) = fst (cflatten (mkb o (l1 ++ l2 ++ l3))).
+Proof.
+  intros o l1 l2 l3 Hne.
+  rewrite (cflatten_mkb o (l1 ++ mkb o l2 :: l3)), (cflatten_mkb o (l1 ++ l2 ++ l3)).
+  unfold fc. rewrite !map_app. cbn [map]. fold (fc l1) (fc l2) (fc l3).
+  pose proof (cflatten_mkb o l2) as HI.
+  remember (fc l1) as A eqn:EA. remember (fc l2) as B eqn:EB. remember (fc l3) as C eqn:EC.
+  remember (fst (cflatten (mkb o l2))) as I eqn:EI. clear EA EC EI.
+  assert (HB : B <> []) by (subst B; unfold fc; destruct l2; [contradiction Hne; reflexivity | discriminate]). clear EB.
+  assert (HgI : gfl o I = flat_map (gfl o) B).
+  { rewrite HI. unfold collapse. destruct B as [|x [|x' r]]; [contradiction HB; reflexivity | symmetry; apply flat_map_gfl_single | apply gfl_mkb]. }
+  assert (Hflat : flat_map (gfl o) (A ++ I :: C) = flat_map (gfl o) (A ++ B ++ C)).
+  { rewrite !flat_map_app. simpl. rewrite HgI. reflexivity. }
+  assert (HBl : 1 <= List.length B) by (destruct B; [contradiction HB; reflexivity | simpl; lia]).
+  destruct (Nat.eq_dec (List.length A + List.length C) 0) as [Hz|Hnz].
+  - assert (A = []) by (destruct A; [reflexivity | simpl in Hz; lia]). assert (C = []) by (destruct C; [reflexivity | simpl in Hz; lia]).
+    subst A C. cbn [app]. rewrite ?app_nil_r. exact HI.
+  - rewrite (collapse_big o (A ++ I :: C)) by (rewrite app_length; simpl; lia).
+    rewrite (collapse_big o (A ++ B ++ C)) by (rewrite !app_length; lia).
+    rewrite Hflat. reflexivity.
+Qed.
+
+Lemma round_assoc : forall o l1 l2 l3, l2 <> [] ->
+    fst (csimplify (mkb o (l1 ++ mkb o l2 :: l3))) = fst (csimplify (mkb o (l1 ++ l2 ++ l3))).
+Proof. intros o l1 l2 l3 Hne. rewrite !csimplify_fst, (cflatten_assoc o l1 l2 l3 Hne). reflexivity. Qed.
+
+(* A op A = A: two rounds *)
+Lemma rounds_idem : forall o a,
+    ceqc (fst (csimplify (fst (csimplify (mkb o [a; a]))))) (fst (csimplify (fst (csimplify a)))).
+Proof.
+  intros o a. set (a1 := fst (cflatten a)).
+  assert (E1 : fst (cflatten (mkb o [a; a])) = mkb o (gfl o a1 ++ gfl o a1 ++ [])).
+  { rewrite cflatten_mkb. reflexivity. }
+  destruct (ops_of o a1) as [m|] eqn:Eo.
+  - (* A is itself an o-node after flattening: its operands twice *)
+    assert (Ea1 : a1 = mkb o m) by (destruct o, a1; simpl in Eo; inversion Eo; reflexivity).
+    refine (proj1 (csimplify_cong _ _ _)).
+    rewrite (csimplify_fst (mkb o [a; a])), (csimplify_fst a), E1. fold a1. unfold gfl. rewrite Eo, Ea1, !corder_mkb.
+    refine (proj1 (cabsorb_cong _ _ _)). apply ceqc_mkb.
+    apply (sortdedupe_set ccmp ccmp_lawful); apply (covers_incl ccmp ccmp_lawful); unfold oc; apply incl_map.
+    + intros x Hx. rewrite app_nil_r in Hx. apply in_app_or in Hx. tauto.
+    + intros x Hx. apply in_or_app. left. exact Hx.
+  - (* otherwise the first round leaves the one-operand node o[A'], which the second round collapses *)
+    set (a2 := fst (corder a1)). set (a3 := fst (cabsorb a2)).
+    assert (R1 : fst (csimplify (mkb o [a; a])) = mkb o [a3]).
+    { rewrite csimplify_fst, E1. unfold gfl. rewrite Eo. cbn [app]. rewrite corder_mkb. unfold oc. cbn [map]. fold a2.
+      assert (Es : dedupe ccmp (isort ccmp [a2; a2]) = [a2]).
+      { unfold isort. simpl. rewrite (ccmp_refl a2). simpl. rewrite (ccmp_refl a2). reflexivity. }
+      rewrite Es. rewrite cabsorb_unfold. cbn [fst map]. fold a3. destruct o; reflexivity. }
+    assert (R2 : fst (csimplify a) = a3).
+    { rewrite csimplify_fst. reflexivity. }
+    rewrite R1, R2. rewrite (csimplify_fst (mkb o [a3])), cflatten_mkb. cbn [fc map collapse]. rewrite <- csimplify_fst. apply ceqc_refl.
+Qed.
+
+(* ------------------------------------------------------------------ *)
+(* the comparison-level pipeline                                       *)
+
+Theorem ccore_seteq : forall fuel o l l' n n' c c',
+    incl l l' -> incl l' l -> List.length l <> 1 -> List.length l' <> 1 ->
+    ccore fuel (mkb o l) = Ok (n, c) -> ccore fuel (mkb o l') = Ok (n', c') -> ceqc n n'.
+Proof.
+  intros fuel o l l' n n' c c' H1 H2 N1 N2. apply ccore_after_settle.
+  intros y y' d d'. apply csettle_by_round. apply round_seteq; assumption.
+Qed.
+
+Theorem ccore_assoc : forall fuel o l1 l2 l3 n n' c c', l2 <> [] ->
+    ccore fuel (mkb o (l1 ++ mkb o l2 :: l3)) = Ok (n, c) -> ccore fuel (mkb o (l1 ++ l2 ++ l3)) = Ok (n', c') -> ceqc n n'.
+Proof.
+  intros fuel o l1 l2 l3 n n' c c' Hne. apply ccore_after_settle.
+  intros y y' d d'. apply csettle_by_round. rewrite (round_assoc o l1 l2 l3 Hne). apply ceqc_refl.
+Qed.
+
+Theorem ccore_idem : forall fuel o a n n' c c',
+    ccore fuel (mkb o [a; a]) = Ok (n, c) -> ccore fuel a = Ok (n', c') -> ceqc n n'.
+Proof.
+  intros fuel o a n n' c c'. apply ccore_after_settle.
+  intros y y' d d'. apply csettle_by_rounds2. apply rounds_idem.
+Qed.
